@@ -32,6 +32,8 @@ pub enum Step {
     QueryBalance { tag: String, addr: String, denom: String },
     QueryRaw { tag: String, addr: String, key: Binary },
     QuerySupply { tag: String, denom: String },
+    /// in a reply handler: fail iff the sub-message result is Ok
+    FailOnOk { msg: String },
     QuerySmartGet { tag: String, addr: String, key: String },
     /// smart query answered by iterating the other contract's storage
     QuerySmartList {
@@ -177,6 +179,12 @@ fn run(deps: DepsMut, env: &Env, script: &Script, ev: &mut Ev) -> StdResult<Resp
                     Err(e) => Obs::Err(e.to_string()),
                 };
                 ev.obs.push((tag.clone(), o));
+            }
+            Step::FailOnOk { msg } => {
+                if matches!(ev.reply.as_ref().map(|r| &r.result), Some(SubMsgResult::Ok(_))) {
+                    ev.failed = true;
+                    return Err(StdError::generic_err(msg.clone()));
+                }
             }
             Step::QuerySupply { tag, denom } => {
                 let o = match deps.querier.query_supply(denom.clone()) {
